@@ -13,6 +13,6 @@ CONSTANTS
   OrphanRescan = FALSE
   CanonIds = FALSE
   Repaired = FALSE
-INVARIANTS RecConfTruthful RecSpendTruthful RecReorgOnlyOnDisconnect RecDoneOnlyDeep RecHintSafe ConformOut ConformHints ConformDispatch ConformErr ConfTimely SpendTimely ConfSound SpendSound ConfHintSafe SpendHintSafe NoPanic
+INVARIANTS RecConfTruthful RecSpendTruthful RecConfTimely RecSpendTimely RecSound RecReorgOnlyOnDisconnect RecDoneOnlyDeep RecHintSafe ConformOut ConformHints ConformDispatch ConformErr ConfTimely SpendTimely ConfSound SpendSound ConfHintSafe SpendHintSafe NoPanic
 PROPERTIES PConfTruthful PSpendTruthful PNegOnlyOnDisconnect PReorgOnlyOnDisconnect PDoneOnlyDeep
 CHECK_DEADLOCK TRUE
